@@ -260,6 +260,10 @@ pub struct Tcb {
     /// and a zero peer window. Every `retx_threshold` passes a
     /// zero-window probe goes out.
     pub persist_ticks: u32,
+    /// Zero-window probes sent since the peer was last heard from
+    /// (any segment with the ACK flag resets it). After `retx_max`
+    /// unanswered probes the connection is aborted with `TimedOut`.
+    pub persist_probes: u32,
 }
 
 /// Listener state. Attached to a socket by `listen(2)`.
